@@ -719,9 +719,7 @@ func firstFlightFacts(env *e2e.Env, c2sFrom, s2cFrom int, attempts []string) str
 		for _, a := range attempts {
 			for _, d := range mine {
 				if h := parseLong(d.Data); h.ok && h.initial && hex.EncodeToString(h.dcid) == a {
-					if x := "x" + hex.EncodeToString(h.scid); !slices.Contains(hscids, x) {
-						hscids = append(hscids, x)
-					}
+					hscids = append(hscids, "x"+hex.EncodeToString(h.scid)) // one entry per attempt (zero-length IDs repeat)
 					if dcidlen < 0 {
 						dcidlen, toklen = len(h.dcid), h.toklen
 					}
